@@ -39,45 +39,56 @@ Definition spacetime_ok (d : list (string * pyv)) : Prop :=
 Lemma bind_ret {A} (m : result A) : bind m (fun x => Ok x) = m.
 Proof. destruct m; reflexivity. Qed.
 
-Ltac chain k Hl Hst :=
+Lemma notin_eqb k (l : list string) x : ~ In k l -> In x l -> String.eqb k x = false.
+Proof. intros Hn Hx. apply String.eqb_neq. intros ->. contradiction. Qed.
+
+(* the key is one of the chain's literals: both sides compute *)
+Ltac known_key Hl Hst :=
+  simpl; simpl in Hl; rewrite ?Hl; simpl;
+  try (destruct (Hst _ Hl) as [? [? [? ->]]]; simpl; rewrite ?seq_get_0, ?seq_get_1; simpl);
+  rewrite ?bind_ret; reflexivity.
+
+(* any other key: every comparison of the chain fails *)
+Ltac unknown_key k keys Hk :=
   repeat match goal with
   | |- context [String.eqb k ?lit] =>
-      let E := fresh "E" in
-      destruct (String.eqb k lit) eqn:E;
-      [ apply String.eqb_eq in E; subst k; simpl; simpl in Hl; rewrite ?Hl; simpl;
-        try (destruct (Hst _ Hl) as [? [? [? ->]]]; simpl; rewrite ?seq_get_0, ?seq_get_1; simpl);
-        rewrite ?bind_ret; reflexivity
-      | ]
-  end.
+      rewrite (notin_eqb k keys lit Hk) by (simpl; repeat (first [left; reflexivity | right]))
+  end;
+  simpl;
+  repeat match goal with
+  | |- context [String.eqb k ?lit] =>
+      let E := fresh "E" in destruct (String.eqb k lit) eqn:E; simpl
+  end;
+  reflexivity.
 
-Ltac tables_proof gen arity method :=
+Ltac tables_proof gen arity method keys :=
   let d := fresh "d" in let ev := fresh "ev" in let N := fresh "N" in let Hst := fresh "Hst" in
   intros d ev N Hst; unfold gen, ctor_spec;
   destruct d as [|kv0 d0]; [reflexivity|];
   remember (kv0 :: d0) as d eqn:Hd;
-  assert (Hne : py_len (VList (map (fun kv => VStr (fst kv)) d)) = Ok (VInt (Z.of_nat (length d))))
-    by (unfold py_len, vlen; rewrite map_length; reflexivity);
   simpl; unfold vlen; rewrite map_length;
   replace (Z.of_nat (length d) =? 0)%Z with false by (subst d; reflexivity);
   simpl;
   rewrite (fold_keys _ (fun e kv => entry arity method (fst kv) (snd kv) e)); [reflexivity|];
-  clear Hne;
   let s := fresh "s" in let k := fresh "k" in let v := fresh "v" in let Hin := fresh "Hin" in
   intros s [k v] Hin; cbn [fst snd];
   pose proof (lookup_in_nodup k v d N Hin) as Hl;
   clear Hd Hin; unfold entry; simpl;
   unfold arity, method, gen_arity_Base, gen_method_Base;
-  chain k Hl Hst;
-  reflexivity.
+  let Hk := fresh "Hk" in
+  destruct (in_dec string_dec k keys) as [Hk|Hk];
+  [ unfold keys in Hk; simpl in Hk;
+    repeat (destruct Hk as [Hk|Hk]; [subst k; known_key Hl Hst|]); contradiction
+  | unknown_key k keys Hk ].
 
 Theorem apply_kwargs_Oscar_spec : forall d ev, NoDup (map fst d) -> spacetime_ok d ->
   gen_apply_kwargs_Oscar ev (VDict d) = ctor_spec gen_arity_Oscar gen_method_Oscar d ev.
-Proof. tables_proof gen_apply_kwargs_Oscar gen_arity_Oscar gen_method_Oscar. Qed.
+Proof. tables_proof gen_apply_kwargs_Oscar gen_arity_Oscar gen_method_Oscar gen_dispatch_keys_Oscar. Qed.
 
 Theorem apply_kwargs_Jetscape_spec : forall d ev, NoDup (map fst d) -> spacetime_ok d ->
   gen_apply_kwargs_Jetscape ev (VDict d) = ctor_spec gen_arity_Jetscape gen_method_Jetscape d ev.
-Proof. tables_proof gen_apply_kwargs_Jetscape gen_arity_Jetscape gen_method_Jetscape. Qed.
+Proof. tables_proof gen_apply_kwargs_Jetscape gen_arity_Jetscape gen_method_Jetscape gen_dispatch_keys_Jetscape. Qed.
 
 Theorem apply_kwargs_PObj_spec : forall d ev, NoDup (map fst d) -> spacetime_ok d ->
   gen_apply_kwargs_PObj ev (VDict d) = ctor_spec gen_arity_PObj gen_method_PObj d ev.
-Proof. tables_proof gen_apply_kwargs_PObj gen_arity_PObj gen_method_PObj. Qed.
+Proof. tables_proof gen_apply_kwargs_PObj gen_arity_PObj gen_method_PObj gen_dispatch_keys_PObj. Qed.
